@@ -291,3 +291,51 @@ Example split_example :
   valid (2 + 2) D = true /\
   split_dendrogram D 2 2 = Ok ([(0, 1, (2 # 1)%Q, 2)], [(0, 1, (2 # 1)%Q, 2)]).
 Proof. vm_compute. split; reflexivity. Qed.
+
+(** * SOURCE LEVEL — split_dendrogram of hierarchy/postprocess.py, regenerated on every run
+
+    [src_split_dendrogram] is the body of split_dendrogram as a statement of the small imperative Python of Model/PyImp.v
+    (Gen/PySplit.v, produced by harness/translators/pyimp.py from the current source; ids read from the float array are used as
+    dict keys, as in Python where hash(2.0) = hash(2)).  For EVERY dendrogram and shape, running the text leaves in
+    [dendrogram_row] / [dendrogram_col] exactly the rows of the model's split_dendrogram (the code handles both sides in one
+    loop, the model one side at a time), and raises when the model does; with the theorems above: on a valid dendrogram over
+    n1 + n2 leaves the text returns valid row and column dendrograms that agree with the full one. *)
+From SKN Require Import Model.PyImp Gen.PySplit Proofs.PyCutsProofs Proofs.PySplitProofs.
+From Coq Require Import String.
+Local Open Scope string_scope.
+
+Theorem source_split_dendrogram_is_model D n1 n2 (e0 : env) :
+  e0 "dendrogram" = Some (embD D) -> e0 "shape" = Some (VList [vnat n1; vnat n2]) ->
+  match split_dendrogram D n1 n2 with
+  | Ok (Dr, Dc) => exists e', exec src_split_dendrogram e0 = POk e' /\
+                              e' "dendrogram_row" = Some (VList (map embNewRow Dr)) /\
+                              e' "dendrogram_col" = Some (VList (map embNewRow Dc))
+  | Err _ => exists er, exec src_split_dendrogram e0 = PErr er
+  end.
+Proof. exact (src_split_dendrogram_is_model D n1 n2 e0). Qed.
+Print Assumptions source_split_dendrogram_is_model.
+
+Theorem source_split_dendrogram_valid D n1 n2 (e0 : env) :
+  1 <= n1 -> 1 <= n2 -> valid (n1 + n2) D = true ->
+  e0 "dendrogram" = Some (embD D) -> e0 "shape" = Some (VList [vnat n1; vnat n2]) ->
+  exists e' Dr Dc, exec src_split_dendrogram e0 = POk e' /\
+    e' "dendrogram_row" = Some (VList (map embNewRow Dr)) /\ e' "dendrogram_col" = Some (VList (map embNewRow Dc)) /\
+    valid n1 Dr = true /\ valid n2 Dc = true /\
+    own_view n1 Dr = restrict_view (n1 + n2) D 0 n1 /\ own_view n2 Dc = restrict_view (n1 + n2) D n1 n2.
+Proof. exact (src_split_dendrogram_valid D n1 n2 e0). Qed.
+Print Assumptions source_split_dendrogram_valid.
+
+Theorem source_split_untranslated_reviewed :
+  src_split_params = ["dendrogram"; "shape"] /\
+  src_split_return = "return (np.array(dendrogram_row), np.array(dendrogram_col))".
+Proof. split; reflexivity. Qed.
+Print Assumptions source_split_untranslated_reviewed.
+
+Example c07_source_nonvacuous :
+  let D := [(0, 2, 1%Q, 2); (1, 3, 2%Q, 2); (4, 5, 3%Q, 4)] in
+  run_var src_split_dendrogram [("dendrogram", embD D); ("shape", VList [vnat 2; vnat 2])] "dendrogram_row"
+    = POk (Some (VList (map embNewRow [(0, 1, 3%Q, 2)]))) /\
+  run_var src_split_dendrogram [("dendrogram", embD D); ("shape", VList [vnat 2; vnat 2])] "dendrogram_col"
+    = POk (Some (VList (map embNewRow [(0, 1, 3%Q, 2)]))) /\
+  split_dendrogram D 2 2 = Ok ([(0, 1, 3%Q, 2)], [(0, 1, 3%Q, 2)]).
+Proof. cbv zeta. repeat split; vm_compute; reflexivity. Qed.
